@@ -56,11 +56,15 @@ class SigmaLogSource:
         )
 
     def to_dict(self) -> dict[str, Any]:
-        return {
+        d: dict[str, Any] = {
             field.name: str(value)
             for field in dataclasses.fields(self)
-            if (value := self.__getattribute__(field.name)) is not None
+            if field.name not in ("source", "custom_attributes")
+            and (value := self.__getattribute__(field.name)) is not None
         }
+        if self.custom_attributes:  # written as they were read: further keys of the log source map
+            d.update(self.custom_attributes)
+        return d
 
     def __contains__(self, other: "SigmaLogSource") -> bool:
         """
